@@ -152,6 +152,44 @@ def make_string(kind: str, width: int, cast: str, length: int):
     return h
 
 
+STRING_LIST = ["", "a", "\x00", "\x7f", "\x80", "\xff", "\u0100", "\u0451", "ab", "a\u0301", "a\ud800", "\ud800a", "\ud800",
+               "\udfff", "a\udfff\udc00", "\ud83d\ude00", "\U0001f600", "a\x00", "\x00\x00", " ", "\n", "'", "\\"]
+
+
+def make_string_list(kind: str, width: int):
+    """
+    Concrete initializer strings (str.encode is a C boundary: the engine realises a symbolic str there, so lone
+    surrogates and other code points that encode specially are listed explicitly): accepted only for uint8-like types
+    and exactly one ASCII character, stored as its code point.
+    """
+    import pydsdl
+    from pydsdl import _expression as E
+
+    def concrete(i: int) -> typing.Any:
+        s = STRING_LIST[i]
+        t = _mk_type(kind, width, "saturated")
+        try:
+            c = pydsdl.Constant(t, "X", E.String(s))
+        except pydsdl.InvalidDefinitionError:
+            c = None
+        want = kind in ("uint", "byte", "utf8") and width == 8 and len(s) == 1 and ord(s) < 128
+        if (c is not None) != want:
+            return "string %r as %s%d constant: accepted=%r, want %r" % (s, kind, width, c is not None, want)
+        if c is not None and c.value.native_value != ord(s):
+            return "not stored as the code point"
+        return True
+
+    def h(i: int) -> typing.Any:
+        a = pick(i, 0, len(STRING_LIST) - 1)
+        if a is None:
+            return None
+        from .. import textio
+
+        return textio.native(concrete, a)
+
+    return h
+
+
 def make_kinds(kind: str, width: int):
     """Value kind vs type kind (choice over the value kinds)."""
     import pydsdl
@@ -202,6 +240,15 @@ def make_kinds(kind: str, width: int):
 
 
 def conditions(tier: str, seed: int) -> typing.List[Cond]:
+    out = _conditions(tier, seed)
+    for kind, width in (("uint", 8), ("uint", 7), ("uint", 16), ("int", 8), ("float", 16), ("bool", 1)):
+        out.append(Cond(PROP, "c12.string-list", make_string_list, {"kind": kind, "width": width}, {"i": int}, kind="choice",
+                        assumptions=["%d listed initializer strings incl. lone surrogates, Latin-1, combining marks" % len(STRING_LIST)],
+                        witness={"i": 1}, budget=120.0, need_exhaust=True))
+    return out
+
+
+def _conditions(tier: str, seed: int) -> typing.List[Cond]:
     thorough = tier == "thorough"
     out = []  # type: typing.List[Cond]
     A = ["v: unbounded mathematical integer"]
